@@ -40,6 +40,39 @@ pub const WORDS: &[(&str, u32)] = &[
     ("e0d8fb99def25c", 30), ("17bc7b99d88004", 30), ("ecd8fd5f1c0870", 30), ("605d5d5d5f4354", 30),
     ("447e3b9e39a27f", 31), ("8b1f1c78fc0884", 31), ("547f1c79dc0885", 31),
     ("b9dc7abd5ee9fe", 32), ("823e3b98fdec9c", 32), ("e0fb9b98fb51e2", 32),
+    // boundary quotients: per level the largest and the smallest rolling hash value
+    // that ends a piece exactly at that level (r+1 == q_max*(3<<k) and r+1 == 3<<k)
+    ("f9d8f9df1a3d2e", 0), ("ed5c79db9b00cf", 0),
+    ("df98f8fb9c0000", 1), ("69d9d8fb9b0087", 1),
+    ("62bf18fb9940b5", 2), ("a79f1c7c7cd5e1", 2),
+    ("98f9dd5abc0725", 3), ("9e3f1e39df4a01", 3),
+    ("89dc7ab8f83dfe", 4), ("04000000000100", 4),
+    ("34fb99dabb008e", 5), ("6abc78fb9c1109", 5),
+    ("7cff1f1e3ac480", 6), ("16bb9b9f1e0100", 6),
+    ("655d58ff1c0083", 7), ("a0000000000007", 7),
+    ("863f1f1b9885a0", 8), ("c2be39d9df6238", 8),
+    ("179c79dab47bd2", 9), ("04000005a12800", 9),
+    ("423d5f1d5defe0", 10), ("e71e3ab9dbc6d6", 10),
+    ("e4f9d9df09d8b7", 11), ("4be48000007b00", 11),
+    ("f07d5c7d5800bf", 12), ("abe0000000f7e8", 12),
+    ("02b9d9dd77dec7", 13), ("bc80000492da09", 13),
+    ("f799d8ff0fa7e0", 14), ("900000002e69ac", 14),
+    ("615d5d5cdf86b2", 15), ("100000069c4344", 15),
+    ("207e3d599ddf45", 16), ("42c6c7e19fdf8d", 16),
+    ("80f8f8e87a00fb", 17), ("f7e7e7ecf1d9f7", 17),
+    ("f8fb9ab0f91eee", 18), ("240002563f000f", 18),
+    ("fdd8fae9d0f9f1", 19), ("6080002c7dd6c3", 19),
+    ("29de3a99dd0000", 20), ("5525a17abf9066", 20),
+    ("9ddab51b9ac000", 21), ("bc0000b8fc1b1a", 21),
+    ("f0f8fcf8f0f7fe", 22), ("cac6cdde3c0837", 22),
+    ("139d70fb994e8b", 23), ("7c00139b9e0000", 23),
+    ("9a3c6abf1e0000", 24), ("e2c7cd58f97074", 24),
+    ("231a1f1d5f0004", 25), ("0c033e3e3f0006", 25),
+    ("e2b8bb9b9b1462", 26), ("ffe2f8f8f1dcf1", 26),
+    ("d0e95d5abd0000", 27), ("ffecf8f9d0fded", 27),
+    ("41571f1f1e0085", 28), ("dff2be3b9ded6b", 28),
+    ("934f1c7c7c3018", 29), ("f2e8f9d9d0fbfd", 29),
+    ("b5f9de3f1d0041", 30), ("769f18fe39a52f", 30),
 ];
 
 pub const LEVEL_WRAP: usize = 31; // rolling hash == 0xffffffff
